@@ -10,6 +10,7 @@ import (
 	"fmt"
 	"io"
 	"net"
+	"sort"
 	"strconv"
 	"strings"
 	"sync"
@@ -349,6 +350,8 @@ func replyEngine(args []string) error {
 		return replyConc(r, c.n, base)
 	case "tcpstorm":
 		return replyTCPStorm(r, c.n, base)
+	case "storm":
+		return replyStorm(r, c.n, base)
 	case "replay":
 		t := strings.Fields(c.extra)
 		if len(t) < 5 {
@@ -842,4 +845,124 @@ func replyTCPStorm(r *rng, n int, base int) error {
 		}
 	}
 	return nil
+}
+
+// ---- mode storm (C04): a storm of requests ending in every listed way against a proxy of
+// small capacity K, then K+2 slow queries: how many are inside the resolver together?
+func replyStorm(r *rng, n int, base int) error {
+	for sidx := 0; sidx < n; sidx++ {
+		k := []int{2, 3, 5}[r.intn(3)]
+		timeout := 150 * time.Millisecond
+		w, err := newWorld(base+sidx%50, uint(k), timeout)
+		if err != nil {
+			return err
+		}
+		w.up.cur = &behaviour{kind: "err"}
+		counts := map[string]int{}
+		nev := r.rng(10, 40)
+		var wg sync.WaitGroup
+		for e := 0; e < nev; e++ {
+			kind := []string{"udp_small", "udp_junk", "udp_ok", "udp_uperr", "udp_timeout", "udp_panic",
+				"tcp_half", "tcp_small", "tcp_ok_then_close", "tcp_close_before_reply", "tcp_panic"}[r.intn(11)]
+			counts[kind]++
+			name := fmt.Sprintf("e%d.storm.", e)
+			ms := msgSpec{id: r.intn(65536), flags: 0x0100, qs: [][]byte{question(encodeName(strings.TrimSuffix(name, ".")), 1, 1)}}
+			q := ms.encode()
+			resp := append([]byte{}, q...)
+			resp[2] |= 0x80
+			set := func(b *behaviour) {
+				w.up.mu.Lock()
+				w.up.script[name] = b
+				w.up.mu.Unlock()
+			}
+			wg.Add(1)
+			go func(kind string) {
+				defer wg.Done()
+				switch kind {
+				case "udp_small":
+					udpExchange(w.addr, r2bytes(14), 30*time.Millisecond, time.Millisecond)
+				case "udp_junk":
+					udpExchange(w.addr, append([]byte{0xff, 0xff, 0x01, 0x00, 0xff, 0xff, 0xff, 0xff, 0, 0, 0, 0}, r2bytes(20)...), 400*time.Millisecond, time.Millisecond)
+				case "udp_ok":
+					set(&behaviour{kind: "up", msg: resp})
+					udpExchange(w.addr, q, 600*time.Millisecond, time.Millisecond)
+				case "udp_uperr":
+					set(&behaviour{kind: "err"})
+					udpExchange(w.addr, q, 600*time.Millisecond, time.Millisecond)
+				case "udp_timeout":
+					set(&behaviour{kind: "hang"})
+					udpExchange(w.addr, q, 600*time.Millisecond, time.Millisecond)
+				case "udp_panic":
+					set(&behaviour{kind: "panic"})
+					udpExchange(w.addr, q, 100*time.Millisecond, time.Millisecond)
+				case "tcp_half":
+					if c, err := net.Dial("tcp", w.addr); err == nil {
+						_, _ = c.Write([]byte{0, 40, 1, 2, 3})
+						time.Sleep(5 * time.Millisecond)
+						c.Close()
+					}
+				case "tcp_small":
+					tcpExchange(w.addr, frame(r2bytes(10)), 1, 200*time.Millisecond, time.Millisecond)
+				case "tcp_ok_then_close":
+					set(&behaviour{kind: "up", msg: resp})
+					tcpExchange(w.addr, frame(q), 1, 600*time.Millisecond, time.Millisecond)
+				case "tcp_close_before_reply":
+					set(&behaviour{kind: "hang"})
+					if c, err := net.Dial("tcp", w.addr); err == nil {
+						_, _ = c.Write(frame(q))
+						time.Sleep(3 * time.Millisecond)
+						c.Close()
+					}
+				case "tcp_panic":
+					set(&behaviour{kind: "panic"})
+					tcpExchange(w.addr, frame(q), 1, 100*time.Millisecond, time.Millisecond)
+				}
+			}(kind)
+			if r.coin(60) {
+				time.Sleep(time.Duration(r.intn(3000)) * time.Microsecond)
+			}
+		}
+		wg.Wait()
+		time.Sleep(2*timeout + 50*time.Millisecond) // every handler has ended by now (timeout bound)
+		maxDuring := int(atomic.LoadInt32(&w.up.maxActive))
+		// barrier phase: K+2 slow queries over UDP from distinct sockets
+		atomic.StoreInt32(&w.up.maxActive, 0)
+		gate := make(chan struct{})
+		var wg2 sync.WaitGroup
+		for j := 0; j < k+2; j++ {
+			name := fmt.Sprintf("b%d.storm.", j)
+			ms := msgSpec{id: r.intn(65536), flags: 0x0100, qs: [][]byte{question(encodeName(strings.TrimSuffix(name, ".")), 1, 1)}}
+			q := ms.encode()
+			resp := append([]byte{}, q...)
+			resp[2] |= 0x80
+			w.up.mu.Lock()
+			w.up.script[name] = &behaviour{kind: "up", msg: resp, gate: gate}
+			w.up.mu.Unlock()
+			wg2.Add(1)
+			go func() {
+				defer wg2.Done()
+				udpExchange(w.addr, q, 500*time.Millisecond, time.Millisecond)
+			}()
+		}
+		time.Sleep(90 * time.Millisecond) // all that can enter the resolver have entered (well within the timeout)
+		barrier := int(atomic.LoadInt32(&w.up.active))
+		close(gate)
+		wg2.Wait()
+		w.stop()
+		var parts []string
+		for kd, c := range counts {
+			parts = append(parts, fmt.Sprintf("%s=%d", kd, c))
+		}
+		sort.Strings(parts)
+		emit("storm", itoa(sidx), itoa(k), strings.Join(parts, ","), "=>", itoa(maxDuring), itoa(barrier))
+	}
+	return nil
+}
+
+func r2bytes(n int) []byte {
+	b := make([]byte, n)
+	for i := range b {
+		b[i] = byte(i*37 + 11)
+	}
+	return b
 }
